@@ -31,7 +31,7 @@ theorem RelListen.congr {s : Server} {slots slots' : Slot → DSlot} {ms ms' : S
       (u ∈ (slots' i).rsubs ∨ ridOf u ∈ (slots' i).cancelHeld))
     (e6 : ∀ i, (slots' i).gated = (slots i).gated)
     (m1 : ∀ i, (ms' i).listens = (ms i).listens) (m2 : ∀ i, (ms' i).luris = (ms i).luris)
-    (m3 : ∀ i, (ms' i).owed = (ms i).owed) :
+    (m3 : ∀ i, (ms i).owed = [] → (ms' i).owed = []) :
     RelListen s slots' ms' := by
   constructor
   · exact h.all_acked
@@ -41,7 +41,7 @@ theorem RelListen.congr {s : Server} {slots slots' : Slot → DSlot} {ms ms' : S
   · intro i hu hg; rw [e1] at hu; rw [e6] at hg; rw [e2]; exact h.gated_none i hu hg
   · intro i hu; rw [e1] at hu
     have := h.idle i hu
-    exact ⟨by rw [m1]; exact this.listens, by rw [m2]; exact this.luris, by rw [m3]; exact this.owed⟩
+    exact ⟨by rw [m1]; exact this.listens, by rw [m2]; exact this.luris, m3 i this.owed⟩
 
 theorem RelOwed.congr {owed : List (Nat × Kind)} {infl : Kind → List Send} {slots slots' : Slot → DSlot}
     {ms ms' : Slot → MSlot} (h : RelOwed owed infl slots ms)
